@@ -16,7 +16,13 @@ R1 order in `QueueManagerConnector.run` (CFG dominance / must-pass-through, batc
    removes the id is reported too: run() has no such route today and it would need its own obligation.)
 R2 siblings: every concrete `_get_running_jobs` (Slurm, PBS, Flux -- enumerated through the class table) that is
    memoised is memoised on exactly the cache object `run` clears (`self._jobs_cache`), and every call site of
-   `_get_running_jobs` in the program holds the jobs-cache lock.
+   `_get_running_jobs` in the program holds the jobs-cache lock.  The `cache=` argument is interpreted as the callable
+   cachebox applies to the connector (`cache(args[0])`): a lambda, a named function (module level, imported, or
+   defined earlier in the class body), a module-level name bound once to such a callable, or
+   `operator.attrgetter('<attr>')` is accepted iff *every* return path yields `<its first argument>.<cleared attr>`
+   (local aliases / temporaries, `getattr`, conditional expressions and delegation to another such getter are
+   followed, inlining bound 3; a rebound argument, a fall-through, another attribute or a cache object that does
+   not depend on the connector are reported).
 R3 `undeploy` cancels exactly the queued ids: the ids handed to `_remove_jobs` are collected by complete,
    unconditional iteration over `self._scheduled_jobs`; the map is emptied on every path; walking back from the
    emptying, the last read of the map is reached before any suspension point (otherwise an id registered by a
@@ -289,6 +295,165 @@ def _cache_decorators(p, f):
     return out
 
 
+_INLINE = 3  # bound on getter -> getter / alias -> getter indirections followed
+
+
+def _first_positional(args: ast.arguments) -> str | None:
+    """name of the parameter that receives the single positional argument of `getter(obj)`; None when the
+    callable cannot be called with exactly one positional argument"""
+    pos = [*args.posonlyargs, *args.args]
+    if not pos:
+        return None
+    n_required = len(pos) - len(args.defaults)
+    if n_required > 1 or any(d is None for d in args.kw_defaults):
+        return None
+    return pos[0].arg
+
+
+def _denotes(f, e, name: str) -> bool:
+    """every value local expression `e` may denote is the (never rebound) parameter `name`"""
+    if f is None:  # lambda: no statements, so no rebinding (a walrus inside is refused)
+        return isinstance(e, ast.Name) and e.id == name
+    if [d.kind for d in defs_of(f, name)] != ["param"]:
+        return False
+    os_ = origins(f, e)
+    return bool(os_) and all(isinstance(o, ast.Name) and o.id == name for o in os_)
+
+
+def _yields_attr(p, mod, f, e, obj: str, attr: str, depth: int) -> bool:
+    """expression `e` (evaluated in function `f`, or in a lambda when f is None) is `<obj>.<attr>`, where obj is
+    the callable's own first argument: attribute access / getattr through local aliases and temporaries, either
+    arm of a conditional expression, or the result of another recognised getter applied to obj."""
+    vals = origins(f, e) if f is not None else ([e.body, e.orelse] if isinstance(e, ast.IfExp) else [e])
+    if not vals:
+        return False
+    for v in vals:
+        if v is not e and isinstance(v, ast.IfExp):
+            if not _yields_attr(p, mod, f, v, obj, attr, depth):
+                return False
+            continue
+        if isinstance(v, ast.Attribute):
+            if not (v.attr == attr and _denotes(f, v.value, obj)):
+                return False
+        elif isinstance(v, ast.Call) and not v.keywords and isinstance(v.func, ast.Name) and v.func.id == "getattr" and len(v.args) == 2:
+            if p.resolve_dotted(mod, "getattr") != "getattr":
+                return False
+            a = v.args[1]
+            if not (isinstance(a, ast.Constant) and a.value == attr and _denotes(f, v.args[0], obj)):
+                return False
+        elif isinstance(v, ast.Call) and not v.keywords and len(v.args) == 1 and not isinstance(v.args[0], ast.Starred):
+            if f is not None and isinstance(v.func, ast.Name) and defs_of(f, v.func.id):
+                return False  # a local callable: not followed
+            if not (_denotes(f, v.args[0], obj) and _getter_yields(p, mod, None, v.func, attr, depth - 1)):
+                return False
+        else:
+            return False
+    return True
+
+
+def _module_bindings(m, name: str) -> list:
+    """values bound to module-level `name` in module m: the assigned expression for a plain `name = <expr>`, None for
+    every other kind of (re)binding (unpacking, augmented, loop / with target, del, `global name` in a function)"""
+    out = []
+    for n in ast.walk(m.tree):
+        if isinstance(n, ast.Global):
+            if name in n.names:
+                out.append(None)
+            continue
+        if isinstance(n, (ast.FunctionDef, ast.AsyncFunctionDef, ast.ClassDef)):
+            tg, val = ([ast.Name(id=n.name)], None)
+        elif isinstance(n, (ast.Assign, ast.Delete)):
+            tg, val = n.targets, getattr(n, "value", None)
+        elif isinstance(n, (ast.AnnAssign, ast.AugAssign, ast.NamedExpr, ast.For, ast.AsyncFor)):
+            tg, val = [n.target], (n.value if isinstance(n, ast.AnnAssign) else None)
+        elif isinstance(n, (ast.With, ast.AsyncWith)):
+            tg, val = [i.optional_vars for i in n.items if i.optional_vars is not None], None
+        elif isinstance(n, (ast.Import, ast.ImportFrom)):
+            tg, val = [ast.Name(id=(a.asname or a.name).split(".")[0]) for a in n.names], None
+        else:
+            continue
+        if any(isinstance(a, (ast.FunctionDef, ast.AsyncFunctionDef, ast.ClassDef, ast.Lambda)) for a in ancestors(n)):
+            continue  # not module scope
+        for t in tg:
+            if isinstance(t, ast.Name) and t.id == name:
+                out.append(val)
+            elif any(isinstance(x, ast.Name) and x.id == name for x in ast.walk(t)):
+                out.append(None)
+    return out
+
+
+def _getter_yields(p, mod, cls, ce, attr: str, depth: int = _INLINE) -> bool:
+    """The callable expression `ce` (written in module `mod`, class body `cls` or None), applied to one positional
+    argument `obj`, returns `obj.<attr>` on every path.  This is what cachebox's `cached(cache=<callable>)` does with it
+    (`cache(args[0])`, args[0] being the connector).  Accepted: a lambda, a named function (module level, imported, or
+    defined in the same class body), a module-level name bound once to such a callable, `operator.attrgetter('<attr>')`;
+    function bodies may use local aliases / temporaries, `getattr(obj, '<attr>')`, and may delegate to another
+    recognised getter (bounded inlining).  Anything else is not recognised (=> the rule reports)."""
+    if depth <= 0 or ce is None:
+        return False
+    if isinstance(ce, ast.Lambda):
+        obj = _first_positional(ce.args)
+        if obj is None or any(isinstance(x, ast.NamedExpr) for x in ast.walk(ce.body)):
+            return False
+        return _yields_attr(p, mod, None, ce.body, obj, attr, depth)
+    if isinstance(ce, ast.Call):
+        q = p.resolve_expr(mod, ce.func)
+        if q == "operator.attrgetter":
+            return len(ce.args) == 1 and not ce.keywords and isinstance(ce.args[0], ast.Constant) and ce.args[0].value == attr
+        return False
+    d = dotted(ce)
+    if d is None:
+        return False
+    fn = None
+    if cls is not None and isinstance(ce, ast.Name):
+        # a name in a class body (decorator argument) sees the functions defined earlier in that class body
+        cand = cls.methods.get(ce.id)
+        if cand is not None and cand.node.lineno < ce.lineno:
+            if any((dotted(x) or "").split(".")[-1] != "staticmethod" for x in cand.decorators):
+                return False
+            fn = cand
+    if fn is None:
+        q = p.resolve_dotted(mod, d)
+        if q is None:
+            return False
+        fn = p.functions.get(q)
+        if fn is not None and (fn.cls is not None or fn.decorators):
+            return False  # bound methods / wrapped functions: not interpreted
+    if fn is None:
+        # a module-level name bound exactly once, by a plain assignment, to a recognised callable
+        mname, _, name = q.rpartition(".")
+        m2 = p.modules.get(mname)
+        if m2 is None:
+            return False
+        binds = _module_bindings(m2, name)
+        if len(binds) != 1 or binds[0] is None:
+            return False
+        return _getter_yields(p, m2, None, binds[0], attr, depth - 1)
+    # a named function: plain `def`, undecorated (or a staticmethod of the class body), not a generator
+    node = fn.node
+    if fn.is_async or any(isinstance(x, (ast.Yield, ast.YieldFrom)) for x in fn.body_nodes()):
+        return False
+    obj = _first_positional(node.args)
+    if obj is None:
+        return False
+    g = fn.cfg
+    rets = [n for n in g.nodes.values() if n.kind == "return"]
+    if not rets:
+        return False
+    # no fall-through (implicit `return None`): every normal predecessor of the exit is a return statement
+    ret_ids = {n.id for n in rets}
+    for a, succs in g.succ.items():
+        if a not in ret_ids and any(b == g.exit and k in ("n", "t", "f") for b, k in succs):
+            return False
+    live = g.reach([g.entry], include_src=True)
+    for r in rets:
+        if r.id not in live:
+            continue
+        if r.ast.value is None or not _yields_attr(p, fn.module, fn, r.ast.value, obj, attr, depth):
+            return False
+    return True
+
+
 def r2(ctx):
     p = ctx.prog
     F = _run_facts(ctx)
@@ -311,9 +476,9 @@ def r2(ctx):
             if isinstance(d, ast.Call):
                 ce = next((k.value for k in d.keywords if k.arg == "cache"), d.args[0] if d.args else None)
                 got = _norm(ce)
-                if isinstance(ce, ast.Lambda) and len(ce.args.args) == 1:
-                    b = ce.body
-                    ok = isinstance(b, ast.Attribute) and isinstance(b.value, ast.Name) and b.value.id == ce.args.args[0].arg and b.attr == cache_attr
+                # cachebox calls a callable `cache` as cache(args[0]) (args[0]: the connector): lambda, named function,
+                # module-level alias, attrgetter -- whatever the spelling, it must yield <connector>.<cache_attr>
+                ok = _getter_yields(p, m.module, m.cls, ce, cache_attr)
                 km = next((k.value for k in d.keywords if k.arg == "key_maker"), None)
                 keymakers[m.cls.name] = _norm(km) if km is not None else "<default>"
             else:
@@ -742,6 +907,7 @@ _REG = "        self._scheduled_jobs[job_id] = location\n"
 _LOOP = ("        while True:\n            async with self._jobs_cache_lock:\n                running_jobs = await self._get_running_jobs(location)\n"
          "            if job_id not in running_jobs:\n                break\n            await asyncio.sleep(self.pollingInterval)\n")
 _POP = "        self._scheduled_jobs.pop(job_id)\n"
+_LAM = "cache=lambda self: self._jobs_cache"
 
 
 def _ind(text: str) -> str:
@@ -782,6 +948,22 @@ VARIANTS = [
     V("one sibling caches on a private TTLCache", FILE, f"{MOD}.FluxConnector._get_running_jobs", "cache=lambda self: self._jobs_cache", "cache=TTLCache(maxsize=1, global_ttl=5)", "R2"),
     V("new caller polls without the lock", FILE, QMC, "async def undeploy(self, external: bool) -> None:",
       "async def is_idle(self, location) -> bool:\n        return not await self._get_running_jobs(location)\n\n    async def undeploy(self, external: bool) -> None:", "R2"),
+    V("named cache getter returns another attribute", FILE, None, _LAM, "cache=_get_jobs_cache", "R2", count=3,
+      append="def _get_jobs_cache(connector):\n    return connector._listing_cache\n"),
+    V("named cache getter ignores the connector (one module-wide cache)", FILE, f"{MOD}.SlurmConnector._get_running_jobs", _LAM, "cache=_shared_cache", "R2",
+      append="_SHARED = TTLCache(maxsize=1, global_ttl=5)\n\n\ndef _shared_cache(connector):\n    return _SHARED\n"),
+    V("named cache getter yields the connector's cache on one branch only", FILE, f"{MOD}.PBSConnector._get_running_jobs", _LAM, "cache=_pick_cache", "R2",
+      append="_FALLBACK = TTLCache(maxsize=1, global_ttl=5)\n\n\ndef _pick_cache(connector):\n    if connector.pollingInterval > 0:\n        return connector._jobs_cache\n    return _FALLBACK\n"),
+    V("named cache getter rebinds its argument to the wrapped connector", FILE, f"{MOD}.FluxConnector._get_running_jobs", _LAM, "cache=_inner_cache", "R2",
+      append="def _inner_cache(connector):\n    connector = connector.connector\n    return connector._jobs_cache\n"),
+    V("named cache getter can fall through (returns None: cachebox then fails / caches nothing that run clears)", FILE, f"{MOD}.FluxConnector._get_running_jobs", _LAM, "cache=_maybe_cache", "R2",
+      append="def _maybe_cache(connector):\n    if connector.pollingInterval > 0:\n        return connector._jobs_cache\n"),
+    V("module-level alias of a lambda on another attribute", FILE, f"{MOD}.SlurmConnector._get_running_jobs", _LAM, "cache=_cache_of", "R2",
+      append="_cache_of = lambda connector: connector._running_cache\n"),
+    V("attrgetter of another attribute", FILE, f"{MOD}.SlurmConnector._get_running_jobs", _LAM, "cache=_cache_of", "R2",
+      append="import operator\n\n_cache_of = operator.attrgetter('_running_cache')\n"),
+    V("cache getter defined in the class body returns a class-wide cache", FILE, f"{MOD}.PBSConnector._get_running_jobs", "@cached(" + _LAM,
+      "_ALL = TTLCache(maxsize=1, global_ttl=5)\n\ndef _cache_of(connector):\n    return PBSConnector._ALL\n\n@cached(cache=_cache_of", "R2"),
     # ---- R3
     V("undeploy cancels another collection", FILE, UND, "for job_id, location in self._scheduled_jobs.items():", "for job_id, location in self._running_jobs.items():", "R3"),
     V("undeploy skips some ids", FILE, UND, "        jobs_map.setdefault(inner_location.name, []).append(job_id)",
@@ -822,5 +1004,18 @@ VARIANTS = [
     V("tolerant pop after the loop", FILE, RUN, _POP, "        self._scheduled_jobs.pop(job_id, None)\n", None),
     V("failed poll retried in the next round", FILE, RUN, "            async with self._jobs_cache_lock:\n                running_jobs = await self._get_running_jobs(location)\n",
       "            try:\n                async with self._jobs_cache_lock:\n                    running_jobs = await self._get_running_jobs(location)\n            except WorkflowExecutionException:\n                await asyncio.sleep(self.pollingInterval)\n                continue\n", None),
+    # (module-level getters are appended: the analysis does not depend on the textual order of module-level definitions)
+    V("B4-6: the three lambda cache getters replaced by one named module-level function", FILE, None, _LAM, "cache=_get_jobs_cache", None, count=3,
+      append="def _get_jobs_cache(connector: QueueManagerConnector) -> BaseCacheImpl:\n    return connector._jobs_cache\n"),
+    V("named cache getter with a docstring, a local alias and a temporary", FILE, None, _LAM, "cache=_get_jobs_cache", None, count=3,
+      append="def _get_jobs_cache(connector, /):\n    'cache of the running jobs'\n    owner = connector\n    cache = owner._jobs_cache\n    pass\n    return cache\n"),
+    V("named cache getter delegating to another getter / getattr (bounded inlining)", FILE, None, _LAM, "cache=_get_jobs_cache", None, count=3,
+      append="def _attr(obj):\n    return getattr(obj, '_jobs_cache')\n\n\ndef _get_jobs_cache(connector):\n    if connector is None:\n        raise ValueError('no connector')\n    return _attr(connector)\n"),
+    V("module-level alias of the lambda", FILE, None, _LAM, "cache=_jobs_cache_of", None, count=3, append="_jobs_cache_of = lambda c: c._jobs_cache\n"),
+    V("operator.attrgetter as cache getter", FILE, None, _LAM, "cache=_jobs_cache_of", None, count=3, append="import operator\n\n_jobs_cache_of = operator.attrgetter('_jobs_cache')\n"),
+    V("cache getter defined in the class body", FILE, f"{MOD}.PBSConnector._get_running_jobs", "@cached(" + _LAM,
+      "def _cache_of(connector):\n    return connector._jobs_cache\n\n@cached(cache=_cache_of", None),
+    V("lambda with another parameter name and a conditional expression", FILE, f"{MOD}.SlurmConnector._get_running_jobs", _LAM,
+      "cache=lambda c, *_: c._jobs_cache if c.pollingInterval else getattr(c, '_jobs_cache')", None),
     V("result into locals", FILE, RUN, "        self._scheduled_jobs.pop(job_id)\n", "        self._scheduled_jobs.pop(job_id)\n        logger.debug('left the queue')\n", None),
 ]
